@@ -152,8 +152,17 @@ def close(a, b, rtol, atol=0.0):
   return d <= atol + rtol * scale, (d / scale if scale > 0 else d)
 
 
+def on_path(task, h2):
+  """Replay mode: task['only_history'] restricts the exploration to the
+  prefixes of one recorded history (tokens that are not events are ignored)."""
+  only = task.get("only_history") if task else None
+  if not only:
+    return True
+  return list(h2) == list(only[:len(h2)])
+
+
 def bfs(acc, s0, r0, events, depth, step, ref_step, check, canon,
-        max_states=200000):
+        max_states=200000, task=None):
   """Explicit-state BFS over the real transition function.
 
   step(state, ev) -> (out, state'); ref_step(ref, ev) -> (ref_out, ref');
@@ -168,6 +177,8 @@ def bfs(acc, s0, r0, events, depth, step, ref_step, check, canon,
     nxt = []
     for s, r, hist in frontier:
       for ev in events:
+        if not on_path(task, hist + (ev,)):
+          continue
         out, s2 = step(s, ev)
         rout, r2 = ref_step(r, ev)
         acc.transitions += 1
